@@ -228,7 +228,7 @@ func verifC09RelayBody() {
 	n.listenKO = verifChoice(5) == 4
 	cl := &verifTurnClient{relay: &verifUDPConn{}}
 	relayIP := net.IPv4(70, 0, 0, 1)
-	fault := verifChoice(5)
+	fault := verifChoice(6)
 	factoryErr := false
 	switch fault {
 	case 1:
@@ -239,6 +239,10 @@ func verifC09RelayBody() {
 		cl.allocErr = true
 	case 4:
 		relayIP = net.ParseIP("fe80::1") // filtered for location tracking
+	case 5: // no gathering fault, but closing the allocation reports an error at teardown
+		cl.relay.closeFails = true
+		fault = 0
+		verifReach("allocation-close-fails")
 	}
 	cl.relay.local = &net.UDPAddr{IP: relayIP, Port: 7000}
 	a.turnClientFactory = func(*turn.ClientConfig) (turnClient, error) {
